@@ -194,7 +194,7 @@ static inline void send_anti_messages(struct process_ctx *proc_p, array_count_t 
 				RSV_YIELD(RSV_SITE_FLAG_ANTI);
 				uint32_t f =
 				    atomic_fetch_add_explicit(&msg->flags, MSG_FLAG_ANTI, memory_order_relaxed);
-				RSV_EV(RSV_EV_ANTI_LOCAL, msg, f, 0, msg->dest_t);
+				RSV_EV(RSV_EV_ANTI_LOCAL, msg, f, 0, 0.0); // msg may already belong to its receiver: not dereferenced
 				if(f & MSG_FLAG_PROCESSED)
 					msg_queue_insert(msg);
 			}
